@@ -8,6 +8,7 @@
 -/
 import Kopf.Model.C16_Storage
 namespace Kopf.C16
+open Kopf Kopf.J
 
 def isAlnum (c : Char) : Bool := c.isAlphanum
 
@@ -74,13 +75,68 @@ instance (k : Str) : Decidable (IdOk k) := by unfold IdOk; infer_instance
 instance (s : Str) : Decidable (EdgeAlnum s) := by unfold EdgeAlnum; infer_instance
 instance (s : Str) : Decidable (GoodSfx s) := by unfold GoodSfx; infer_instance
 
-/-- `json.loads(json.dumps(x)) == x`, also with the trailing newline the diff-base storage appends -/
-structure Codec (env : Env) : Prop where
-  rt : ∀ j, env.dec (env.enc j) = some j
-  rtnl : ∀ j, env.dec (env.enc j ++ newline) = some j
-
 /-- a status storage field that does not live under `metadata` (nor is `kind`): the default is
     `status.kopf.progress` -/
 def FieldApart (field : Path) : Prop := ∃ h t, field = h :: t ∧ h ≠ "metadata" ∧ h ≠ "kind"
+
+/-! ## Vocabulary of the storage theorems (what the statements in `Props/C16.lean` talk about) -/
+
+/-- the bindings of a merge target (`{}` for a non-object target) -/
+def kvsOf : J → List (String × J)
+  | obj kvs => kvs
+  | _ => []
+
+/-- What a merge-patch says about one path of the object (kopf terms: what the accumulated
+    `Patch` of the cycle will do to that field when the API server applies it). -/
+inductive Probe where
+  | untouched            -- the patch says nothing about this path
+  | gone                 -- the path is deleted (or cut off by a null / a scalar above it)
+  | set (v : J)          -- the patch carries value `v` (non-null unless the path is empty) at this path
+
+def probe : J → Path → Probe
+  | p, [] => .set p
+  | p, k :: ks =>
+    match p with
+    | obj pk =>
+      match lookup k pk with
+      | none => .untouched
+      | some null => .gone
+      | some c => if ks.isEmpty then .set c else if c.isObj then probe c ks else .gone
+    | _ => .gone
+
+/-- the two paths differ at some common position (neither is a prefix of the other) -/
+def diverge : Path → Path → Bool
+  | a :: as, b :: bs => if a = b then diverge as bs else true
+  | _, _ => false
+
+/-- The patch does not rewrite what the ReplicaSet-of-Deployment marking looks at (`kind`,
+    `metadata.ownerReferences`): the names computed when storing and when fetching from the patched
+    object are then the same. Kopf's own patches never touch these fields; `{}` satisfies it. -/
+def MarkStable (p : J) : Prop :=
+  probe p ["kind"] = .untouched ∧ probe p ["metadata", "ownerReferences"] = .untouched
+
+
+/-- a flat record: unique keys, no nested objects (the shape of `ProgressRecord`) -/
+def FlatRec (r : Rec) : Prop := wfKvs r = true ∧ ∀ kv ∈ r, kv.2.isObj = false
+
+/-- name part of the v2 key -/
+def v2Name (sfx : Str → Str) (k : Str) : Str :=
+  (safeKey k).take (63 - (if k.length > 63 then sfx k else []).length) ++ (if k.length > 63 then sfx k else [])
+
+/-- name part of the v1 key -/
+def v1Name (p : Str) (sfx : Str → Str) (k : Str) : Str :=
+  pyTake (safeKey k) (63 - ((pre p).length : Int) -
+      ((if ((safeKey k).length : Int) ≤ 63 - ((pre p).length : Int) then [] else sfx (safeKey k)).length : Int))
+    ++ (if ((safeKey k).length : Int) ≤ 63 - ((pre p).length : Int) then [] else sfx (safeKey k))
+
+/-- a prefix the real constructors accept and Kubernetes can hold: non-empty, no `/` -/
+def PlainPrefix (p : Str) : Prop := p ≠ [] ∧ ∀ ch ∈ p, ch ≠ '/'
+
+/-- A leaf of a Multi storage that keeps out of the way of an annotations storage with prefix `p`:
+    another annotations storage under a *different* plain prefix, or a status storage whose field is
+    not under `metadata` (kopf terms: `Multi[Annotations(prefix=a), Annotations(prefix=b), Status()]`). -/
+def LeafApart (p : Str) : Leaf → Prop
+  | .ann c' => c'.pfx ≠ p ∧ PlainPrefix c'.pfx
+  | .status sc => FieldApart sc.field
 
 end Kopf.C16
